@@ -9,7 +9,7 @@ use crate as pdf;
 use crate::error::*;
 use crate::object::*;
 use crate::primitive::{Primitive, Dictionary, PdfString};
-use crate::backend::Backend;
+use crate::backend::{Backend, MAX_ID};
 use crate::any::*;
 use crate::parser::{Lexer, parse_with_lexer};
 use crate::parser::{parse_indirect_object, parse, ParseFlags};
@@ -436,6 +436,10 @@ where
     pub fn save(&mut self, trailer: &mut Trailer) -> Result<&[u8]> {
         // writing the trailer generates another id for the info dictionary
         trailer.size = (self.refs.len() + 2) as _;
+        // the reader refuses a /Size above MAX_ID: do not write what cannot be read back
+        if self.refs.len() + 2 > MAX_ID as usize {
+            bail!("too many objects");
+        }
         let trailer_dict = trailer.to_dict(self)?;
         
         let xref_promise = self.promise::<Stream<XRefInfo>>();
